@@ -7,10 +7,13 @@
 (* A model is given by its leaves in the order they were added:            *)
 (*   [path  : sequence of child names from the root (<<>> = the root       *)
 (*            itself is the leaf),                                          *)
-(*    kind  : "linear" | "conv" | "linsub" (subclass of Linear) | "bn"     *)
+(*    kind  : "linear" | "conv" | "linsub" (subclass of Linear) | "linx"   *)
+(*            (subclass of Linear with an EXTRA parameter besides weight   *)
+(*            and bias) | "bn"                                             *)
 (*            (unsupported leaf with parameters and buffers) | "act"       *)
 (*            (no parameters) | "empty" (container without children),      *)
-(*    frozen: "none" | "part" | "all"   (requires_grad of its parameters), *)
+(*    frozen: "none" | "part" | "all" | "extra" (only the extra parameter  *)
+(*            of a "linx" leaf is frozen)  (requires_grad of its parameters), *)
 (*    share : 0, or the index of an earlier leaf whose INSTANCE this is]   *)
 (* Containers are implied by the paths.  Qualified names join the path     *)
 (* with ".".  Traversal (torch named_modules) is depth first, children in  *)
@@ -51,12 +54,13 @@ ClassName(kind) ==
     CASE kind = "linear" -> <<"L", "i", "n", "e", "a", "r">>
       [] kind = "conv"   -> <<"C", "o", "n", "v", "2", "d">>
       [] kind = "linsub" -> <<"M", "y", "L", "i", "n">>
+      [] kind = "linx"   -> <<"M", "y", "L", "i", "n", "X">>
       [] kind = "bn"     -> <<"B", "N">>
       [] kind = "act"    -> <<"A", "c", "t">>
       [] kind = "empty"  -> <<"B", "o", "x">>
-HasParams(kind) == kind \in {"linear", "conv", "linsub", "bn", "colpar", "rowpar"}
+HasParams(kind) == kind \in {"linear", "conv", "linsub", "linx", "bn", "colpar", "rowpar"}
 Supported(kind) == IF Variant = "gpt" THEN kind \in {"colpar", "rowpar"}
-                   ELSE kind \in {"linear", "conv", "linsub"}
+                   ELSE kind \in {"linear", "conv", "linsub", "linx"}
 
 \* characters of a child name (multi-character names make one sibling's name
 \* a string prefix of another's: "a" / "ab")
@@ -153,6 +157,7 @@ AddLeaf ==
     /\ \E path \in Paths : \E kind \in Kinds : \E fr \in Frozen :
           /\ Compatible(leaves, path)
           /\ (fr # "none") => HasParams(kind)
+          /\ (fr = "extra") => kind = "linx"
           /\ leaves' = Append(leaves, [path |-> path, kind |-> kind,
                                        frozen |-> fr, share |-> 0])
     /\ UNCHANGED <<pats, done>>
